@@ -82,7 +82,7 @@ def run(ctx):
     finals = sum(1 for ln in rlines if '"ret":"final"' in ln)
 
     # 4. the roothash application: commitments as transactions, blocks judged by the same rule
-    seeds = [ctx.seed * 1000 + 700 + i for i in range(6 if q else 48)]
+    seeds = [ctx.seed * 1000 + 700 + i for i in range(6 if q else 120)]
     alines, asums = cc.run_scenarios(ctx, seeds, 160 if q else 400, extra=["-validators", "5", "-maxgroup", "3"])
     al2, as2 = cc.run_scenarios(ctx, [x + 300 for x in seeds[:max(2, len(seeds) // 3)]], 160 if q else 400,
                                 extra=["-vrf", "-epoch", "6", "-validators", "5", "-maxgroup", "3"])
